@@ -225,10 +225,17 @@ class IisFromSlices(Contract):
         (iis_r, iis_c), newl = R
         S = lambda p: py_bounds(L, s, ln[rows[p]])[0]
         cnt = lambda p: self.count(L, A, rows[p])
+        # the two block-content clauses are proved locally: from the loop invariant at exit, the concatenations' block facts, the
+        # induction lemmas (executor's prefix sums = ghost offsets) and the cut on the per-row bounds - nothing else is needed
+        use = ['pre:rows-exist', 'pre:lengths-positive', 'inv1:blocks', 'inv1:one-block-per-row-so-far', 'inv1:range', 'exit1',
+               'cut:row-bounds-select-what-python-slicing-selects', 'lemma:row-block-offsets', 'lemma:column-block-offsets',
+               'prim:np.concatenate', 'prim:np.concatenate#2'] if (L.sym and not self.none[0]) else None
+        # (only for a given start: the clamping of a start bound is what makes the full path condition large; with start=None the
+        #  exact query is decided directly and the local form was measured to be the slower one)
         return [('one-length-per-selected-row', L.And(L.len(newl) == m, L.forall(0, m, lambda p: newl[p] == cnt(p)))),
                 ('as-many-index-pairs-as-selected-cells', L.And(L.len(iis_r) == OFF(m), L.len(iis_c) == OFF(m))),
-                ('row-index-over-each-block', L.forall_dep(0, m, cnt, lambda p, j: iis_r[OFF(p) + j] == rows[p])),
-                ('column-index-follows-python-slicing', L.forall_dep(0, m, cnt, lambda p, j: iis_c[OFF(p) + j] == S(p) + L.mul(j, sp)))] + \
+                ('row-index-over-each-block', L.forall_dep(0, m, cnt, lambda p, j: iis_r[OFF(p) + j] == rows[p]), use),
+                ('column-index-follows-python-slicing', L.forall_dep(0, m, cnt, lambda p, j: iis_c[OFF(p) + j] == S(p) + L.mul(j, sp)), use)] + \
                ([('every-pair-addresses-a-cell-of-its-row', L.forall(0, OFF(m), lambda k: L.And(iis_r[k] >= 0, iis_r[k] < L.len(ln), iis_c[k] >= 0, iis_c[k] < ln[iis_r[k]])))]
                 if s.step is None else [])
 
